@@ -78,7 +78,7 @@ type alphabet struct {
 }
 
 var fullAlphabet = alphabet{
-	scripts: []*Script{{}, {Op: "inc"}},
+	scripts: []*Script{{}, {Op: "inc"}, {Op: "self"}},
 	conds:   []*Cond{{Lt: 1}, {Lt: 2}, {Lt: 1, Inc: true}, {Lt: 2, Inc: true}},
 	posts:   []*Script{nil, {Op: "inc"}},
 	vals:    []*Val{{}, {Dyn: true}},
@@ -174,7 +174,7 @@ type termOpts struct {
 }
 
 func drawScript(t *rapid.T, o termOpts, label string) *Script {
-	ops := []string{"", "", "inc", "inc", "reset"}
+	ops := []string{"", "", "inc", "inc", "reset", "self"}
 	if o.panics {
 		ops = append(ops, "panic", "rtpanic")
 	}
